@@ -65,7 +65,11 @@ struct AnalyserModel::AnalyserModelImpl
     bool mNeedAcschFunction = false;
     bool mNeedAcothFunction = false;
 
-    std::map<uintptr_t, bool> mCachedEquivalentVariables;
+    using EquivalenceCacheKey = std::pair<uintptr_t, uintptr_t>;
+
+    std::map<EquivalenceCacheKey, bool> mCachedEquivalentVariables;
+
+    static EquivalenceCacheKey equivalenceCacheKey(uintptr_t v1, uintptr_t v2);
 
     static AnalyserModelPtr create(const ModelPtr &model = nullptr);
 
